@@ -214,6 +214,7 @@ Record ctx_facts (c : ctx_table) : Prop := {
   f_md_get : plain_var (ct_md_get c) v_ga = true;
   f_md_valid : plain_bvar (ct_md_valid c) v_iv = true;
   f_md_filter : plain_bvar (ct_md_filter c) v_iv = true;
+  f_fmt : ct_fmt_prefix c = [48; 120] /\ ct_fmt_zero c = true /\ ct_fmt_mul c = 2;
   f_width : ct_width c = 32 \/ ct_width c = 64;
   f_cmp : ct_memo_cmp c = 0;
   f_lower : forall n, In n (accepted c) -> has_upper n = false
@@ -239,6 +240,7 @@ Proof.
   apply app_eq_nil in H. destruct H as [D1 H].
   apply app_eq_nil in H. destruct H as [D2 H].
   apply app_eq_nil in H. destruct H as [D3 H].
+  apply app_eq_nil in H. destruct H as [D5 H].
   apply app_eq_nil in H. destruct H as [D4 H].
   apply app_eq_nil in H. destruct H as [H12 H13].
   constructor.
@@ -259,6 +261,9 @@ Proof.
   - exact (diag_nil _ _ _ _ D1 _ (or_introl eq_refl)).
   - exact (diag_nil _ _ _ _ D2 _ (or_introl eq_refl)).
   - exact (diag_nil _ _ _ _ D3 _ (or_introl eq_refl)).
+  - pose proof (diag_nil _ _ _ _ D5 _ (or_introl eq_refl)) as X. cbv beta in X.
+    apply andb_true_iff in X. destruct X as [X X3]. apply andb_true_iff in X. destruct X as [X1 X2].
+    apply name_eqb_eq in X1. apply Z.eqb_eq in X3. repeat split; assumption.
   - pose proof (diag_nil _ _ _ _ D4 _ (or_introl eq_refl)) as X. cbv beta in X.
     apply orb_true_iff in X. destruct X as [X|X]; apply Z.eqb_eq in X; [left | right]; exact X.
   - apply Z.eqb_eq. exact (diag_nil _ _ _ _ H12 _ (or_introl eq_refl)).
@@ -539,6 +544,7 @@ Lemma format_register_spec : forall rf n,
 Proof.
   intros rf n. split.
   - intro Hn. unfold format_register. rewrite (get_always_accepted rf n Hn). cbn [obind]. unfold format_value.
+    destruct (f_fmt c F) as [P1 [P2 P3]]. rewrite P1, P2, P3. cbn [hex_padded app].
     eexists. split; [reflexivity|]. intro Hv.
     destruct (hex_val_min (Z.to_nat (register_size c * 2)) _ Hv) as [A [B C]].
     split; [exact A|]. split; [exact B|]. intro Hlt. apply C.
